@@ -251,11 +251,10 @@ Proof.
 Qed.
 
 (* ---- key independence at quiet states ---- *)
-Theorem quiet_independence ls s t q : frun sh finit ls = Some s -> fquiet s -> thr s t = Some q -> returned s t = false ->
+Lemma quiet_independence_inv s t q : FInv s -> Conv (base s) -> fquiet s -> thr s t = Some q -> returned s t = false ->
   exists t' q' k o o', t' <> t /\ thr s t' = Some q' /\ In (k, o) (tregd q) /\ In (k, o') (tregd q') /\ (tw q = true \/ tw q' = true).
 Proof.
-  intros Hrun Hq Ht Hret. pose proof (reachable_finv sh ls s Hrun) as HF.
-  pose proof (frun_conv ls finit s conv_init Hrun) as HC.
+  intros HF HC Hq Ht Hret.
   destruct (live_parked s t q HF Hq Ht Hret) as (r & n & k & o & A & B & D & P1 & Hp).
   destruct (parked_conflict (base s) o t (tw q) HC (proj2 Hq o) Hp (quiet_all_acq s HF Hq)) as (y & ry & Hne & Ry & Hin & Hmode).
   destruct (req_live s y ry HF Ry) as [qy Hy].
@@ -266,6 +265,9 @@ Proof.
   exists y, qy, k, o, o. split; [exact Hne|split; [exact Hy|split; [exact Hin0|split; [exact Hin|]]]].
   destruct Hmode as [M|M]; [left; exact M|right; congruence].
 Qed.
+Theorem quiet_independence ls s t q : frun sh finit ls = Some s -> fquiet s -> thr s t = Some q -> returned s t = false ->
+  exists t' q' k o o', t' <> t /\ thr s t' = Some q' /\ In (k, o) (tregd q) /\ In (k, o') (tregd q') /\ (tw q = true \/ tw q' = true).
+Proof. intros Hrun. apply quiet_independence_inv; [apply (reachable_finv sh ls s Hrun)|apply (frun_conv ls finit s conv_init Hrun)]. Qed.
 
 (* ---- ordered acquisition never deadlocks ---- *)
 Definition next_key (s : fstate) (t : nat) : nat :=
@@ -284,12 +286,10 @@ Proof.
     + exists m. split; [right; exact Hm|]. intros y [<-|Hy]; [exact Hnlt|apply Hmax, Hy].
 Qed.
 
-Theorem quiet_progress ls s nt : frun sh finit ls = Some s -> Forall ordered_label ls -> fquiet s ->
+Lemma quiet_progress_inv s nt : FInv s -> Conv (base s) -> SortedInv s -> fquiet s ->
   (forall t, nt <= t -> thr s t = None) -> (exists t, thr s t <> None) -> exists t, returned s t = true.
 Proof.
-  intros Hrun Hord Hq Hbound (t0 & Ht0). pose proof (reachable_finv sh ls s Hrun) as HF.
-  pose proof (frun_conv ls finit s conv_init Hrun) as HC.
-  assert (HS : SortedInv s) by (apply (frun_sorted ls finit s Hord); [intros t q H; discriminate|exact Hrun]).
+  intros HF HC HS Hq Hbound (t0 & Ht0).
   destruct (existsb (returned s) (seq 0 nt)) eqn:Eret.
   { apply existsb_exists in Eret. destruct Eret as (t & _ & Hr). exists t. exact Hr. }
   exfalso.
@@ -319,6 +319,13 @@ Proof.
   assert (Hne : live <> []).
   { intros E. assert (In t0 live) by (apply Hlive; exact Ht0). rewrite E in H. destruct H. }
   destruct (max_elem (next_key s) live Hne) as (x & Hx & Hmax). destruct (Hstep x Hx) as (y & Hy & Hlt). exact (Hmax y Hy Hlt).
+Qed.
+
+Theorem quiet_progress ls s nt : frun sh finit ls = Some s -> Forall ordered_label ls -> fquiet s ->
+  (forall t, nt <= t -> thr s t = None) -> (exists t, thr s t <> None) -> exists t, returned s t = true.
+Proof.
+  intros Hrun Hord. apply quiet_progress_inv; [apply (reachable_finv sh ls s Hrun)|apply (frun_conv ls finit s conv_init Hrun)|].
+  apply (frun_sorted ls finit s Hord); [intros t q H; discriminate|exact Hrun].
 Qed.
 
 End Full.
